@@ -66,6 +66,9 @@ def oracle(case, init_snap, obs):
     for i, (op, o) in enumerate(zip(case["ops"], obs)):
         snap = o["snap"]
         tgt = op["obj"]
+        if o["out"] == "no-such-object":
+            prev = snap
+            continue
         # (O6) independence: objects other than the target are untouched
         for j in range(len(prev)):
             if j != tgt and snap[j] != prev[j]:
